@@ -422,6 +422,7 @@ func (b *goBuilder) exprAt(n *inNode, t types.Type, lo, hi int) string {
 		if key == "nil" {
 			return "nil"
 		}
+		key = typeKey(u.Elem()) + "|" + key // objects of different types are different objects, whatever the model's reference
 		if name, seen := b.objs[key]; seen {
 			if name == "" {
 				return "nil"
@@ -476,7 +477,7 @@ func (b *goBuilder) exprAt(n *inNode, t types.Type, lo, hi int) string {
 		if it, isFake := b.x.prog.fakeIface[int(tag)]; isFake {
 			key, ok := b.refKey(b.val(n.L[lo+1]))
 			if !ok || key == "nil" {
-				return "(*" + fakeName(b.x.prog, it) + ")(nil)"
+				key = "nilpayload" // the model left the payload open: any object will do
 			}
 			return b.fakeFor(key, it, nil).name
 		}
@@ -493,6 +494,7 @@ func (b *goBuilder) exprAt(n *inNode, t types.Type, lo, hi int) string {
 					if !ok || key == "nil" {
 						return "(" + b.typeStr(dt) + ")(nil)"
 					}
+					key = typeKey(pt.Elem()) + "|" + key
 					if name, seen := b.objs[key]; seen && name != "" {
 						return name
 					}
@@ -751,7 +753,36 @@ func findExec(r *Report, o *Obligation) *Exec {
 	return nil
 }
 
+// tryReplay first replays end to end (every in-package callee runs for real); if that
+// does not reproduce and the path calls contracted in-package functions, it replays
+// modularly: those callees are replaced by stubs executing their contracts.
 func (r *Report) tryReplay(o *Obligation, dir string, log *strings.Builder) (string, bool) {
+	path, ok := r.replayOnce(o, dir, log, false)
+	if ok {
+		return path, true
+	}
+	hasFunc := false
+	for n := o.events; n != nil; n = n.prev {
+		if n.ev.kind == "func" {
+			hasFunc = true
+		}
+	}
+	if !hasFunc || o.Res.Status != "sat" {
+		return path, false
+	}
+	fmt.Fprintf(log, "---- modular replay: contracted callees replaced by stubs that execute their contracts ----\n")
+	p2, ok2 := r.replayOnce(o, dir, log, true)
+	if ok2 {
+		o.modular = true
+		return p2, true
+	}
+	if path == "" {
+		path = p2
+	}
+	return path, false
+}
+
+func (r *Report) replayOnce(o *Obligation, dir string, log *strings.Builder, modular bool) (string, bool) {
 	if o.Res.Status != "sat" {
 		return "", false
 	}
@@ -776,6 +807,7 @@ func (r *Report) tryReplay(o *Obligation, dir string, log *strings.Builder) (str
 	// 1. collect input terms, the calls into fakes on this path, and the ghost state they carry
 	var nodes []*inNode
 	var plans []*evPlan
+	var stubPlans []*stubPlan
 	var allNodes []*inNode
 	type ghost0 struct {
 		tag, payload Term
@@ -848,6 +880,25 @@ func (r *Report) tryReplay(o *Obligation, dir string, log *strings.Builder) (str
 		}
 		for _, ev := range eventsOldestFirst(o.events) {
 			ev := ev
+			if ev.kind == "func" {
+				if !modular {
+					continue
+				}
+				sp := &stubPlan{ev: ev}
+				load := func(a Term, t types.Type) Val { return rs.loadValIn(ev.post, a, t) }
+				for i := 0; i < ev.sig.Results().Len(); i++ {
+					lo, hi := tupleRange(ev.sig.Results(), i)
+					rn := x.collectWith(load, Val{T: ev.sig.Results().At(i).Type(), L: ev.res.L[lo:hi]}, 2)
+					sp.res = append(sp.res, rn)
+					allNodes = append(allNodes, rn)
+				}
+				sp.mods = x.stubMods(rs, ev)
+				for _, m := range sp.mods {
+					allNodes = append(allNodes, m.node)
+				}
+				stubPlans = append(stubPlans, sp)
+				continue
+			}
 			pl := &evPlan{ev: ev, recvT: ev.recv.L}
 			load := func(a Term, t types.Type) Val { return rs.loadValIn(ev.post, a, t) }
 			for i := 0; i < ev.sig.Results().Len(); i++ {
@@ -916,8 +967,20 @@ func (r *Report) tryReplay(o *Obligation, dir string, log *strings.Builder) (str
 			}
 			asms = append(asms, tOr(alts...))
 		}
-		for i := range n.elems {
+		for i, es := range n.elems {
 			asms = append(asms, fmt.Sprintf("(<= %s %d)", n.L[i+2], maxSliceElems))
+			// the element-set abstraction of a concrete short slice is exactly the set of its elements
+			// (the engine only knows "an element read is a member"; a replayed slice is fully known)
+			if len(es) > 0 && len(es[0].L) == 1 && len(leavesOf(es[0].T)) == 1 && leavesOf(es[0].T)[0].Sort == "String" {
+				x.d.DeclareFun("elems", []string{"Ref", "Int", "Int"}, "(Array String Bool)")
+				set := "((as const (Array String Bool)) false)"
+				for k := 0; k <= len(es); k++ {
+					asms = append(asms, tImp(fmt.Sprintf("(= %s %d)", n.L[i+2], k), tEq("(elems "+n.L[i]+" "+n.L[i+1]+" "+n.L[i+2]+")", set)))
+					if k < len(es) {
+						set = tStore(set, es[k].L[0], "true")
+					}
+				}
+			}
 		}
 		for _, c := range n.ptr {
 			restrict(c)
@@ -946,9 +1009,22 @@ func (r *Report) tryReplay(o *Obligation, dir string, log *strings.Builder) (str
 		}
 	}
 	sort.Strings(uniq)
-	q := o.decls.Query(asms, o.Goal, uniq)
 	file := filepath.Join(r.rc.outDir, "smt", r.rc.prop, "replay_"+sanitize(o.Name)+".smt2")
-	res := solve(q, file, r.rc.timeout, r.rc.seed, false)
+	var res *SolveResult
+	firstIter := false
+	if len(o.firstIter) > 0 {
+		// prefer a model in which every loop head on the path is reached for the first time: then the
+		// real run, which starts at the first iteration, can follow the path (otherwise the script
+		// covers "some later iteration" and the replay will usually diverge)
+		res = solve(o.decls.Query(append(append([]Term(nil), asms...), o.firstIter...), o.Goal, uniq), file, r.rc.timeout, r.rc.seed, false)
+		if res.Status == "sat" {
+			firstIter = true
+			fmt.Fprintf(log, "replay: the model takes every loop on the path in its first iteration\n")
+		}
+	}
+	if !firstIter {
+		res = solve(o.decls.Query(asms, o.Goal, uniq), file, r.rc.timeout, r.rc.seed, false)
+	}
 	if res.Status != "sat" {
 		fmt.Fprintf(log, "replay: no model with realisable inputs (%s)\n", res.Status)
 		return "", false
@@ -1026,7 +1102,7 @@ func (r *Report) tryReplay(o *Obligation, dir string, log *strings.Builder) (str
 		}
 		var rs2 []string
 		for _, rn := range pl.res {
-			rs2 = append(rs2, b.typeStr(rn.T)+"("+b.expr(rn)+")")
+			rs2 = append(rs2, "("+b.typeStr(rn.T)+")("+b.expr(rn)+")")
 		}
 		var after []string
 		for _, gr := range pl.ghosts {
@@ -1037,6 +1113,48 @@ func (r *Report) tryReplay(o *Obligation, dir string, log *strings.Builder) (str
 		}
 		fo.script = append(fo.script, fmt.Sprintf("{m: %q, res: []interface{}{%s}, after: func() { %s }}", mname, strings.Join(rs2, ", "), strings.Join(after, "; ")))
 		_ = globInit
+	}
+	stubs := map[string]*stubInfo{}
+	var callScript []string
+	for _, sp := range stubPlans {
+		label := sp.ev.key
+		si := stubs[x.prog.relName(sp.ev.fn)]
+		if si == nil {
+			si = &stubInfo{name: fmt.Sprintf("zzStub%d_%s", len(stubs)+1, sanitize(sp.ev.fn.Name())), fn: sp.ev.fn, fs: sp.ev.fs, label: label, nmods: sp.mods}
+			stubs[x.prog.relName(sp.ev.fn)] = si
+		}
+		var vs []string
+		for _, rn := range sp.res {
+			vs = append(vs, "("+b.typeStr(rn.T)+")("+b.expr(rn)+")")
+		}
+		// the effects in the order of the stub's static list
+		for _, m := range si.nmods {
+			val := "nil"
+			for _, m2 := range sp.mods {
+				if m2.text == m.text {
+					if m2.once {
+						v := b.val(m2.node.L[0])
+						val = "false"
+						if v != nil && v.atom == "true" {
+							val = "true"
+						}
+					} else {
+						val = "(" + b.typeStr(m2.T) + ")(" + b.expr(m2.node) + ")"
+					}
+				}
+			}
+			vs = append(vs, val)
+		}
+		callScript = append(callScript, fmt.Sprintf("{m: %q, res: []interface{}{%s}}", si.label, strings.Join(vs, ", ")))
+	}
+	if modular && o.Kind == "callpre" {
+		// the callee whose precondition fails has no event yet on this path: stub it as well
+		if i := strings.LastIndex(o.Detail, ":"); i > 0 {
+			label := o.Detail[:i]
+			if cf, fs := x.prog.funcs[label], x.prog.spec.Funcs[label]; cf != nil && fs != nil && stubs[label] == nil {
+				stubs[label] = &stubInfo{name: fmt.Sprintf("zzStub%d_%s", len(stubs)+1, sanitize(cf.Name())), fn: cf, fs: fs, label: label}
+			}
+		}
 	}
 	if b.fail != "" {
 		fmt.Fprintf(log, "replay: %s\n", b.fail)
@@ -1078,6 +1196,8 @@ func (r *Report) tryReplay(o *Obligation, dir string, log *strings.Builder) (str
 			fmt.Fprintf(log, "replay: %s\n", cp.fail)
 			return "", false
 		}
+	} else if o.Kind == "callpre" && modular {
+		safety = true // observed by the stub of the callee
 	} else if !isSafetyKind(o.Kind) {
 		fmt.Fprintf(log, "replay: an obligation of kind %q is inside the function and cannot be observed from a call\n", o.Kind)
 		return "", false
@@ -1110,7 +1230,12 @@ func (r *Report) tryReplay(o *Obligation, dir string, log *strings.Builder) (str
 	}
 	// the fake types mention the parameter types of the interfaces' methods
 	fakeDecls := b.fakeTypeDecls()
-	if len(b.fakes) > 0 {
+	var stubDecls strings.Builder
+	for _, k := range sortedStubNames(stubs) {
+		stubDecls.WriteString(b.stubDecl(stubs[k]))
+	}
+	needRuntime := len(b.fakes) > 0 || len(stubs) > 0
+	if needRuntime {
 		b.imports["reflect"] = true // zzEq
 	}
 	var fnDecls []string
@@ -1144,9 +1269,13 @@ func (r *Report) tryReplay(o *Obligation, dir string, log *strings.Builder) (str
 		fmt.Fprintf(&src, "\t%q\n", p)
 	}
 	fmt.Fprintf(&src, ")\n")
-	if len(b.fakes) > 0 {
+	if needRuntime {
 		src.WriteString(fakeRuntime)
 		src.WriteString(fakeDecls)
+	}
+	if len(stubs) > 0 {
+		src.WriteString("\nvar zzCalls = &zzScript{who: \"contracted callees\"}\nvar zzPreFailed []string\n\n")
+		src.WriteString(stubDecls.String())
 	}
 	if b.needOnce {
 		src.WriteString("\n// a sync.Once that has already fired (the contracts' ghost field `fired`)\nfunc zzFiredOnce() (o sync.Once) {\n\to.Do(func() {})\n\treturn\n}\n")
@@ -1193,6 +1322,13 @@ func (r *Report) tryReplay(o *Obligation, dir string, log *strings.Builder) (str
 		}
 		fmt.Fprintf(&src, "\t}\n")
 	}
+	if len(stubs) > 0 {
+		fmt.Fprintf(&src, "\tzzCalls.i, zzPreFailed = 0, nil\n\tzzCalls.evs = []zzEv{\n")
+		for _, e := range callScript {
+			fmt.Fprintf(&src, "\t\t%s,\n", e)
+		}
+		fmt.Fprintf(&src, "\t}\n")
+	}
 	for _, s := range ghostInit {
 		fmt.Fprintf(&src, "\t%s\n", s)
 	}
@@ -1204,8 +1340,15 @@ func (r *Report) tryReplay(o *Obligation, dir string, log *strings.Builder) (str
 	for _, s := range cp.olds {
 		fmt.Fprintf(&src, "\t%s\n", s)
 	}
+	if o.Kind == "callpre" && modular {
+		want := o.Detail
+		if i := strings.LastIndex(want, "."); i > strings.LastIndex(want, ":") {
+			want = want[:i] // drop the conjunct ordinal
+		}
+		fmt.Fprintf(&src, "\tdefer func() {\n\t\tfor _, zzP := range zzPreFailed {\n\t\t\tif zzP == %q {\n\t\t\t\tzzT.Errorf(\"REPLAY-VIOLATION obligation %s: the real body calls the callee with its precondition %%s false\", zzP)\n\t\t\t}\n\t\t}\n\t}()\n", want, o.Name)
+	}
 	fmt.Fprintf(&src, "\tdefer func() {\n\t\tif zzR := recover(); zzR != nil {\n")
-	if len(b.fakes) > 0 {
+	if needRuntime {
 		fmt.Fprintf(&src, "\t\t\tif d, ok := zzR.(zzDivergence); ok {\n\t\t\t\tzzT.Skipf(\"REPLAY-DIVERGED: %%s\", d.msg)\n\t\t\t}\n")
 	}
 	fmt.Fprintf(&src, "\t\t\tzzT.Fatalf(\"REPLAY-VIOLATION obligation %s: panic: %%v\", zzR)\n\t\t}\n\t}()\n", o.Name)
@@ -1229,9 +1372,22 @@ func (r *Report) tryReplay(o *Obligation, dir string, log *strings.Builder) (str
 		fmt.Fprintf(&src, "\tif !(%s) {\n\t\tzzT.Fatalf(\"REPLAY-VIOLATION obligation %s: clause is false on the real code\")\n\t}\n", check, o.Name)
 	}
 	fmt.Fprintf(&src, "}\n")
-	gopath := filepath.Join(dir, sanitize(o.Name)+"_test.go")
+	suffix := ""
+	extra := map[string]string{}
+	if modular {
+		suffix = "_modular"
+		file, data, err := b.rewriteCallers(fn, stubs)
+		if err != nil {
+			fmt.Fprintf(log, "replay: cannot stub the callees: %v\n", err)
+			return "", false
+		}
+		rw := filepath.Join(dir, sanitize(o.Name)+"_modular_src.go")
+		os.WriteFile(rw, data, 0o644)
+		extra[file] = rw
+	}
+	gopath := filepath.Join(dir, sanitize(o.Name)+suffix+"_test.go")
 	os.WriteFile(gopath, src.Bytes(), 0o644)
-	out, failed := runReplayTest(r.rc.repo, gopath, testName, dir, isLemma)
+	out, failed := runReplayTestWith(r.rc.repo, gopath, testName, dir, isLemma, extra)
 	fmt.Fprintf(log, "replay test: %s\nreplay output:\n%s\n", gopath, indent(strings.TrimSpace(out), "  "))
 	if len(b.unchecked) > 0 {
 		fmt.Fprintf(log, "replay: contract clauses of the scripted fakes that are NOT checked at run time (the model values are taken on trust):\n")
@@ -1243,11 +1399,16 @@ func (r *Report) tryReplay(o *Obligation, dir string, log *strings.Builder) (str
 			}
 		}
 	}
-	if strings.Contains(o.Trace, "loop") || strings.Contains(o.Trace, "it:") {
-		fmt.Fprintf(log, "replay: the path crosses a loop head; the script covers the calls of one arbitrary iteration\n")
+	if len(o.firstIter) > 0 && !firstIter {
+		fmt.Fprintf(log, "replay: the path is inside a loop and needs a later iteration; the script covers the calls of one arbitrary iteration\n")
+	}
+	if o.leftLoops {
+		fmt.Fprintf(log, "replay: the path ran through an earlier loop; the model only knows its invariant, the real run executes it\n")
 	}
 	reproduced := failed && strings.Contains(out, "REPLAY-VIOLATION")
-	if reproduced {
+	if reproduced && modular {
+		fmt.Fprintf(log, "replay: REPRODUCED on the real body of %s (its contracted callees replaced by stubs that execute their contracts; overlay source: %s)\n", x.fname, extra)
+	} else if reproduced {
 		fmt.Fprintf(log, "replay: REPRODUCED on the real code\n")
 	} else if strings.Contains(out, "REPLAY-DIVERGED") {
 		fmt.Fprintf(log, "replay: the real execution took a different sequence of calls than the model (not reproduced)\n")
@@ -1283,7 +1444,14 @@ func isSafetyKind(k string) bool {
 }
 
 func runReplayTest(repo, gofile, testName, dir string, withTag bool) (string, bool) {
+	return runReplayTestWith(repo, gofile, testName, dir, withTag, nil)
+}
+
+func runReplayTestWith(repo, gofile, testName, dir string, withTag bool, extra map[string]string) (string, bool) {
 	ov := map[string]map[string]string{"Replace": {filepath.Join(repo, "zz_limevc_replay_test.go"): gofile}}
+	for k, v := range extra {
+		ov["Replace"][k] = v
+	}
 	ovb, _ := json.Marshal(ov)
 	ovpath := filepath.Join(dir, "overlay_"+testName+".json")
 	os.WriteFile(ovpath, ovb, 0o644)
